@@ -55,6 +55,13 @@ def run_one(args):
     if 'VERIFICATION SUCCESSFUL' in out:
         return cfg, 'ok', '%d assertions' % nprops, time.time() - t0, cmd
     if 'VERIFICATION FAILED' in out:
+        # a libc function cbmc has no body for returns arbitrary values, and a loop longer than the unwinding bound is not explored:
+        # neither says anything about the code; only a memory-safety assertion that fails with every callee modelled and every
+        # loop unwound counts
+        nobody = [l for l in fails if 'no-body' in l or 'no body for' in l]
+        real = [l for l in fails if '.unwind.' not in l and 'no-body' not in l and 'no body for' not in l and 'recursion' not in l]
+        if nobody or not real:
+            return cfg, 'inconclusive', 'cbmc cannot model the current source: ' + '; '.join((nobody or fails)[:3]), time.time() - t0, cmd
         # counterexample
         try:
             t = subprocess.run(cmd + ['--trace', '--stop-on-fail'], stdout=subprocess.PIPE, stderr=subprocess.STDOUT, timeout=3000).stdout.decode('utf-8', 'replace')
